@@ -1,20 +1,31 @@
 (* C12 — a Vaxis application renders correctly inside the embedded terminal.
    Statements only.
 
-   Full statement (kept visible; the last link is not proved yet):
+   Full statement:
      for all frame histories, feeding the bytes Vaxis writes (under the capability set it
      derives from the emulator's replies) to the emulator of the same size leaves, after every
      frame, the emulator's grid/cursor equal to the view of the application's screen, and
      drawing the emulator into a host window reproduces those cells.
    It factors into (a) what Vaxis writes makes ANY conforming terminal show the screen (C01),
    (b) Vaxis writes only vocabulary the emulator advertised (C07), (c) the emulator behaves as
-   the reference terminal on that vocabulary.  (a) and (b) are the theorems below, instantiated
-   at [term_caps]; (c) is decided by the differential run only (the real emulator is driven by
-   a real Vaxis and its grid, cursor and Draw output are compared with the view after every
-   frame): C12 is therefore partial at the proof level. *)
+   the reference terminal on that vocabulary.  (a) and (b) are instantiated at [term_caps];
+   (c) is [C12_emu_simulates_refterm] (one token) and [C12_emu_simulates_refterm_list] over the
+   emulator model of C05/C06 (model/Term.v), for the whole vocabulary Gate.allowed term_caps;
+   [C12_app_in_term] composes the three along every history and concludes exactly the
+   predicate the differential run evaluates on the real emulator.
+
+   What is still assumed in (c) and in the composition (visible as the hypothesis [toks_ok]):
+   every number the renderer writes is written with digits and fits a machine integer (cursor
+   coordinates >= 0, cursor style a small number), hyperlink parameters contain no ';', and
+   every glyph is written where it fits before the right edge - RefTerm makes the other case
+   DPoison and the emulator wraps and may scroll there.  For the renderer's own output these
+   follow from the content hypotheses of C01 (no wide cell overhangs the right edge) but that
+   derivation is not proved here; drawing into a host window is C05_draw_inside plus the
+   differential run. *)
 From Vx Require Import base.Prelude base.ListX model.Colour model.RenderTypes model.Render model.RefTerm
-  model.RenderSpec model.RenderCheck model.Gate model.EmuSpec
-  proofs.RenderDelta proofs.RenderRow proofs.RenderFrame proofs.RenderHistory proofs.GateProofs.
+  model.RenderSpec model.RenderCheck model.Gate model.EmuSpec model.EmuBridge
+  proofs.RenderDelta proofs.RenderRow proofs.RenderFrame proofs.RenderHistory proofs.GateProofs proofs.EmuRefine.
+From Vx Require proofs.TermProofs proofs.TermRefine5.
 
 (* (a) under the emulator's capability set, every history makes every conforming terminal of
    that size show the application's screen and cursor after every frame *)
@@ -38,6 +49,90 @@ Theorem C12_only_advertised_vocabulary : forall (s : vstate) (ops : list op) (e 
   v_caps s = term_caps -> frame_allowed term_caps (snd (do_frame s ops e)) = true.
 Proof. intros s ops e H. rewrite <- H. apply frame_tokens_allowed. Qed.
 Print Assumptions C12_only_advertised_vocabulary.
+
+(* (c) the emulator simulates the reference terminal: one token of the vocabulary allowed
+   under term_caps, from every well-formed emulator state (C05's invariant, any size from 1x1,
+   primary or alternate screen) in the modes Vaxis leaves (autowrap on, insert off, no
+   character-set shift, full-screen scrolling region) that holds what the reference terminal
+   shows ([emu_rel]: every glyph head the reference terminal shows is shown by the emulator
+   cell - grapheme, width, colours, attributes, underline, hyperlink -, positions under a wide
+   glyph and DPoison positions are free; cursor equal, the pending-wrap position being the
+   emulator's deferred-wrap flag on the last column; pen, hyperlink, DECTCEM, cursor shape):
+   feeding the token's encoding does not fail and re-establishes invariant, modes and relation
+   with the reference terminal's next state *)
+Theorem C12_emu_simulates_refterm : forall tw e w h (t : T.term) (r : term) (k : tok),
+  TermProofs.WFs0 e w h t -> vaxis_modes t = true -> emu_rel t r ->
+  allowed term_caps k = true /\ tok_ok k = true /\ fits tw r k ->
+  exists t', emu_toks tw t [k] = T.TOk t' /\ TermProofs.WFs0 e w h t' /\ vaxis_modes t' = true /\
+             emu_rel t' (interp1 tw r k).
+Proof. exact emu_simulates_refterm. Qed.
+Print Assumptions C12_emu_simulates_refterm.
+
+Theorem C12_emu_simulates_refterm_list : forall tw e w h (ks : list tok) (t : T.term) (r : term),
+  TermProofs.WFs0 e w h t -> vaxis_modes t = true -> emu_rel t r -> toks_ok tw r ks ->
+  exists t', emu_toks tw t ks = T.TOk t' /\ TermProofs.WFs0 e w h t' /\ vaxis_modes t' = true /\
+             emu_rel t' (interp tw r ks).
+Proof. exact emu_simulates_refterm_list. Qed.
+Print Assumptions C12_emu_simulates_refterm_list.
+
+(* the composition: every history under term_caps, the emulator fed with the encoded tokens of
+   every frame, from any start state related to a reference terminal as start-up leaves it:
+   after every Render / Refresh the emulator's grid and cursor satisfy grid_shows / cursor_shows
+   against the application's screen - the predicate of the differential run ([emu_history_ok]
+   unfolds to that, frame by frame, under content_ok and the side condition toks_ok) *)
+Theorem C12_app_in_term : forall tw measure rows cols (r0 : term) (t0 : T.term) e (fs : list frame),
+  1 <= rows -> 1 <= cols ->
+  tm_rows r0 = rows -> tm_cols r0 = cols ->
+  tm_pen r0 = tpen0 -> tm_link r0 = ([], []) -> tm_vis r0 = false -> tm_mouse r0 = [] ->
+  TermProofs.WFs0 e cols rows t0 -> vaxis_modes t0 = true -> emu_rel t0 r0 ->
+  emu_history_ok tw measure (vinit term_caps rows cols) r0 t0 fs.
+Proof.
+  intros tw measure rows cols r0 t0 e fs Hr Hc R C P L V M HW HM HR.
+  apply (emu_history_correct tw measure fs _ r0 t0 e cols rows); auto; [|intros H; discriminate].
+  unfold settled, dims_ok, vinit, blank_grid. cbn [v_next v_last v_clast v_mlast cu_vis].
+  repeat split; try lia; try assumption; try (rewrite zlen_repeat by lia; congruence);
+    intros r Hin; apply zrepeat_In in Hin; subst r; rewrite zlen_repeat by lia; congruence.
+Qed.
+Print Assumptions C12_app_in_term.
+
+(* the hypotheses on the start states are satisfiable: the emulator after New(), the first
+   resize and Vaxis' start-up sequence that hides the cursor, against a reference terminal
+   about which nothing is known *)
+Example C12_start_example :
+  let t0 := T.set_md (TermRefine5.start_state 3 2) (T.md_tcem T.modes0 false) in
+  let r0 := term_unknown 2 3 in
+  TermProofs.WFs0 0 3 2 t0 /\ vaxis_modes t0 = true /\ emu_rel t0 r0.
+Proof.
+  cbv zeta. split; [|split].
+  - apply TermProofs.WFs_set_md. destruct (TermRefine5.start_inv 3 2) as [[W _ _ _ _ _ _ _ _ _] _]; try lia. exact W.
+  - reflexivity.
+  - apply mkEmuRel.
+    + reflexivity.
+    + reflexivity.
+    + intros row col c _. exact I.
+    + reflexivity.
+    + left. repeat split; cbn; lia.
+    + repeat split; cbn; lia.
+    + reflexivity.
+    + reflexivity.
+Qed.
+
+(* and frames run end to end on the emulator model: the tokens of a history with a wide cell,
+   colours, attributes, a hyperlink and a cursor satisfy the side condition [toks_ok] (in its
+   decidable form) and the emulator model ends with a grid and cursor that satisfy the
+   predicate evaluated on the real emulator *)
+Example C12_model_example :
+  let st := {| s_fg := index_color 3; s_bg := rgb_color 1 2 3; s_ul := 0; s_uls := 3; s_attr := 6;
+               s_link := [104]; s_linkp := [105; 100] |} in
+  let wide := {| c_g := [28450]; c_w := 0; c_mw := 2; c_st := st; c_sixel := false |} in
+  let a := {| c_g := [97]; c_w := 0; c_mw := 1; c_st := style0; c_sixel := false |} in
+  let fr ops e := {| ef_ops := ops; ef_end := e; ef_toks := []; ef_grid := []; ef_cur := (0, 0, false, 0);
+                     ef_host := []; ef_hostcur := (0, 0, false, 0) |} in
+  let c := {| e_rows := 2; e_cols := 3; e_widths := [([97], 1); ([28450], 2); ([], 0)]; e_caps := [];
+              e_frames := [fr [OSet 0 0 wide; OSet 2 0 a; OShowCursor 1 1 4] FRender;
+                           fr [OSet 0 0 a; OSet 1 1 wide] FRender; fr [] FRefresh] |} in
+  c12_side_holds c = true /\ c12_model_holds c = true.
+Proof. vm_compute. split; reflexivity. Qed.
 
 (* non-vacuity of the executable predicate used on the real emulator: a screen with a wide
    cell, as an emulator that keeps a blank under the right half would hold it *)
